@@ -290,12 +290,19 @@ check('C18', 'model_checking',
       'errors.  On larger codes a dyadic channel makes -log2 P an exact '
       'integer that TLC recomputes from per-qubit exponents; every '
       'likelihood evaluated by the splitting method\'s Metropolis step is '
-      'spied on and judged the same way.',
+      'spied on and judged the same way.  Splitting.tla models that step '
+      '(proposal, acceptance bias 2^-max(0, Bits(new) - Bits(cur)), kept only '
+      'if it still fails, reported likelihood); TLC checks symmetric '
+      'proposal and detailed balance on all 2-qubit dyadic channels; the real '
+      'get_next_error is driven with a scripted np.random and every step '
+      '(offered Paulis, the bias handed to the coin, next error, reported '
+      'likelihood) is validated against Splitting.tla.',
       'DESIGN.md 4/C18',
       'Trusted: TLC; acceptance of a float as an integer numerator within '
       '1e-9 relative.',
       'TLA+ product-channel spec (Noise.tla) + exhaustive recorded '
-      'probabilities judged by TLC',
+      'probabilities judged by TLC; Metropolis step (Splitting.tla) model-'
+      'checked and trace-validated on the real step function',
       'tlc-data')
 
 check('C11', 'model_checking',
